@@ -44,7 +44,7 @@ def _eval_all(P, wd, cases, tag):
 
 
 def _write_replay(P, wd, case, result, kind, why, seed, n, extra=None):
-    path = os.path.join(core.VERIF, "replays", "%s-%d-%d.json" % (P.ID, seed, n))
+    path = os.path.join(os.environ.get("VERIF_REPLAY_DIR", os.path.join(core.VERIF, "replays")), "%s-%d-%d.json" % (P.ID, seed, n))
     model_txt = None
     try:
         expr = P.model_expr(case)
@@ -311,7 +311,7 @@ def _main(P, args, tier, seed, t0, wd):
         },
         "assumptions": P.ASSUMPTIONS,
     }
-    core.write_json(os.path.join(core.VERIF, "evidence", "%s.json" % P.ID), evidence)
+    core.write_json(os.path.join(os.environ.get("VERIF_EVIDENCE_DIR", os.path.join(core.VERIF, "evidence")), "%s.json" % P.ID), evidence)
     for ln in lines:
         print(ln)
     print("%s %s: %d cases (%d in Coq, %d distinct non-trivial), theorems %d/%d, corr-disagreements %d, oracle-failures %d, %.1fs"
